@@ -51,6 +51,7 @@ def setup(E, shape):
         policy=shape.get("policy", "fresh"),
         jac_pattern=[tuple(p) for p in pattern] if pattern is not None else None,
         hess_pattern=[tuple(p) for p in hpattern] if hpattern is not None else None,
+        int_matrices=shape.get("int_matrices", False),
     )
     kw = {}
     vw = cw = ow = None
